@@ -546,13 +546,14 @@ class Logic:
                 this = {"k": "un", "op": "*", "e": this}
         return self.fn_formula(callee, {"this": this, "params": params}, depth + 1)
 
-    def fn_formula(self, fn, env, depth=0):
-        """boolean skeleton of a loop-free bool function: formula of its return value (None if not expressible)"""
+    def fn_formula(self, fn, env, depth=0, noreturn_false=False):
+        """boolean skeleton of a loop-free bool function: formula of its return value (None if not expressible).
+        noreturn_false: a path that ends in a raise counts as "does not return true" (for `true only under ...` questions)"""
         from . import cfg as _cfg
         if _cfg.loop_blocks(fn):
             return None
         for b in fn.reachable_blocks():
-            if fn.is_noreturn(b):
+            if fn.is_noreturn(b) and not noreturn_false:
                 return None
         locals_ = {}
         # single-assignment locals: copy propagation
@@ -580,6 +581,9 @@ class Logic:
                 return memo[b]
             if guard > 200:
                 return None
+            if noreturn_false and fn.is_noreturn(b):
+                memo[b] = F
+                return F
             for e in fn.elems(b):
                 x = e.get("expr")
                 if isinstance(x, dict) and x.get("k") == "return":
